@@ -26,9 +26,12 @@ pub fn decode(bytes: &[u8]) -> Case {
         _ => GenCfg::wide(),
     };
     let built = gen_built(&mut gs, &cfg);
-    let iters = match s.weighted(&[8, 2]) {
+    let iters = match s.weighted(&[16, 4, if built.info.num_nodes <= 40 { 3 } else { 0 }]) {
         0 => 1 + s.below(40) as u64,
-        _ => 41 + s.below(160) as u64,
+        1 => 41 + s.below(160) as u64,
+        // long horizons on little games: whatever goes wrong with the average only after a
+        // thousand iterations shows up as a regret the shrinking bound no longer covers
+        _ => 1000 + ((s.u16() as u64 * 9000) >> 16),
     };
     let threads = if s.weighted(&[3, 1]) == 0 { 1 } else { 2 + s.below(7) };
     let rkind = s.below(8);
@@ -222,7 +225,7 @@ pub fn prop() -> Prop {
         id: "C02",
         check,
         describe,
-        rule: "generated games (all families) x T in 1..200 (80 % <= 40) x {1, 2..16 threads} x vanilla parameters, plus a second run with a threshold from {NaN, -1, +inf, a bound value b_t of the run, b_t(1 +- 1e-12), 1.5 b_t}; oracle: the returned total bound >= the true total regret of the returned profile (independent best-response oracle) - 1e-9 scale, per-player bounds finite and >= 0, total = max, and a run that stops below r has true regret < r; followed by a hill-climbing search over the input bytes maximising true regret / bound (its maximum is reported). Non-trivial = true regret > 0 and T >= 2; distinct by (tree, T, threads).",
+        rule: "generated games (all families) x T in 1..200 (80 % <= 40; on games of <= 40 nodes one case in eight 1000..10000) x {1, 2..16 threads} x vanilla parameters, plus a second run with a threshold from {NaN, -1, +inf, a bound value b_t of the run, b_t(1 +- 1e-12), 1.5 b_t}; oracle: the returned total bound >= the true total regret of the returned profile (independent best-response oracle) - 1e-9 scale, per-player bounds finite and >= 0, total = max, and a run that stops below r has true regret < r; followed by a hill-climbing search over the input bytes maximising true regret / bound (its maximum is reported). Non-trivial = true regret > 0 and T >= 2; distinct by (tree, T, threads).",
         max_len: 700,
         cases_quick: 40_000,
         cases_thorough: 600_000,
